@@ -46,6 +46,17 @@ def state_rater_product():
                                    {"op": "get_rater_kw", "rater": rid},
                                    {"op": "fit", "kw": {"weight_cp": "w_half"}},
                                    {"op": "rate", "rater": rid}])
+    # raters that differ in ONE argument, one right after the other on the
+    # same fit (the cached value belongs to the other one)
+    for a, b in (("R_svr", "R_svr_ldaF"), ("R_svrl", "R_svrl_ldaF"),
+                 ("R_et", "R_et_ldaF"), ("R_et", "R_et_lda"),
+                 ("R_et", "R_et_names"), ("R_et", "R_rf"),
+                 ("R_et", "R_et_mem"), ("R_rf", "R_rf_dir"),
+                 ("R_svr", "R_svrl"), ("R_et", "R_none")):
+        for x, y in ((a, b), (b, a)):
+            out.append(list(fitted) + [{"op": "rate", "rater": x},
+                                       {"op": "rate", "rater": y},
+                                       {"op": "rate", "rater": x}])
     # caller-owned training sets whose content changes between the calls
     import itertools
     for grp in (["R_et_memA", "R_et_memB", "R_et_memC"],
